@@ -22,7 +22,7 @@ def check(ctx):
     ctx.rule("C13.M2", "no state function in an iteration that begins after the machine finished / before on_enable()")
     ctx.rule("C13.M3", "no engine next_state(first) after an engine done() (no cycling)")
     ctx.rule("C13.M4", "first state call after on_enable(): tm == 0, initial_call True")
-    res = smcommon.run_universes(ctx, "AutonomousStateMachine")
+    res = smcommon.run_universes(ctx, "AutonomousStateMachine", owned=OWNED)
     ctx.floor("universes", len(res), 4)
     ctx.floor("typestates", sum(r["states"] for r in res), 200)
     smcommon.report(ctx, res, OWNED, RENAME)
